@@ -235,6 +235,43 @@ def gen_scenario(rng, **opts):
                     if rng.random() < 0.7:
                         acts.append(["bend"])
                 u["acts"][str(si)] = acts
+    # a placement of an order that has been placed before ("again") is forced in a third of the cases: force skips the controls and
+    # nothing else, the request is still refused; a side generator again
+    fr = random.Random("forceagain|%r|%r" % (len(markets), markets[0]["updates"][0]["runners"]))
+    for m in markets:
+        for u in m["updates"]:
+            for acts in u["acts"].values():
+                for j, a in enumerate(acts):
+                    if a[0] == "place" and (j == 0 or acts[j - 1][0] != "create") and fr.random() < opts.get("p_force_again", 0.34):
+                        a[3] = True
+    # cool-downs that are not a whole number of seconds (reset_seconds 1 -> 0.5 / 1.5, place_reset_seconds 10 -> 2.5) in a third of the
+    # scenarios, so that the sub-second part of the clock matters at the boundary; a side generator again
+    cr2 = random.Random("fractionalcooldown|%r|%r" % (len(markets), markets[0]["updates"][0]["runners"]))
+    if cr2.random() < opts.get("p_fractional_cooldown", 0.34):
+        half = cr2.choice([0.5, 0.5, 1.5])
+        for m in markets:
+            for u in m["updates"]:
+                for acts in u["acts"].values():
+                    for a in acts:
+                        if a[0] == "create":
+                            if a[16] == 1:
+                                a[16] = half
+                            if a[15] == 10:
+                                a[15] = 2.5
+    # several clients: in half of those scenarios every strategy has a "home" client per market and sends all its requests there
+    # through that client (its callbacks become batches of that client), so that orders of a non-default client are cancelled,
+    # updated and REPLACED often (without a batch a request goes through the default client and is refused for any other client's
+    # order); a side generator again
+    if nc > 1:
+        hr = random.Random("homeclient|%r|%r" % (nc, markets[0]["updates"][0]["runners"]))
+        if hr.random() < opts.get("p_home_client", 0.5):
+            home = {}
+            for mi, m in enumerate(markets):
+                for u in m["updates"]:
+                    for sk, acts in u["acts"].items():
+                        if acts and acts[0][0] != "bbegin":
+                            k = home.setdefault((sk, mi), hr.randrange(nc))
+                            u["acts"][sk] = [["bbegin", k]] + acts + [["bend"]]
     # commission rates other than the default, 0 included ("all client commission rates"): a side generator again
     cr = random.Random("commission|%r|%r" % (len(markets), markets[0]["updates"][0]["runners"]))
     for c in sc["clients"]:
